@@ -36,6 +36,7 @@ type kvCase struct {
 	sets    map[string]map[string]bool // key -> "time:value" ever written
 	id      string
 	nconfl  int
+	custom  bool
 	shapes  map[string]bool
 }
 
@@ -96,7 +97,11 @@ func (c *kvCase) open(ro bool, perm []int) (*kvHandle, error) {
 		if i == 0 {
 			c.e.Op(fmt.Sprintf("kv clone ver:%s %s", c.label(n), h.name), "ok")
 		} else {
-			c.e.Op(fmt.Sprintf("kv merge %s ver:%s", h.name, c.label(n)), "ok")
+			if c.custom {
+				c.e.Op(fmt.Sprintf("kv mergec %s ver:%s", h.name, c.label(n)), "ok")
+			} else {
+				c.e.Op(fmt.Sprintf("kv merge %s ver:%s", h.name, c.label(n)), "ok")
+			}
 		}
 	}
 	c.st.Count(fmt.Sprintf("open_versions_%d", min(len(order), 4)))
@@ -305,7 +310,7 @@ func (c *kvCase) run(nops int) {
 		c.e.Op("kv dump "+h.name, d)
 		if i == 0 {
 			first = d
-		} else if stripPrev(d) != stripPrev(first) {
+		} else if !c.custom && stripPrev(d) != stripPrev(first) {
 			c.fail(fmt.Sprintf("merge order changes the result: %q vs %q", first, d))
 		}
 	}
@@ -340,7 +345,7 @@ func (c *kvCase) run(nops int) {
 				if i > 0 && times[i] >= times[i-1] {
 					c.fail(fmt.Sprintf("TraceHistory(%s) not strictly decreasing: %v", k, times))
 				}
-				if vals[i] != "-" && !c.sets[k][fmt.Sprintf("%d:%s", times[i], vals[i])] {
+				if !c.custom && vals[i] != "-" && !c.sets[k][fmt.Sprintf("%d:%s", times[i], vals[i])] {
 					c.fail(fmt.Sprintf("TraceHistory(%s) yields %d:%s which was never set", k, times[i], vals[i]))
 				}
 			}
@@ -416,7 +421,24 @@ func kvCmd(args []string) int {
 			ValuesLike:   "",
 			BranchFactor: uint(gen.Pick(r, []int{2, 3, 4, 16})),
 		}
-		if r.Chance(1, 3) {
+		if r.Chance(1, 4) {
+			// custom-merge mode: metadata by LastWriteWins, payloads joined in lexicographic order
+			c.custom = true
+			c.cfg.CustomMerge = func(_ interface{}, v1, v2 crdt.Value) crdt.Value {
+				res := *crdt.LastWriteWins(&v1, &v2)
+				x, ok1 := v1.Value.(string)
+				y, ok2 := v2.Value.(string)
+				if ok1 && ok2 && !v1.Tombstoned() && !v2.Tombstoned() {
+					if x < y {
+						res.Value = x + "+" + y
+					} else {
+						res.Value = y + "+" + x
+					}
+				}
+				return res
+			}
+			st.Count("mode_custom_merge")
+		} else if r.Chance(1, 3) {
 			c.cfg.OnConflictMerged = func(key, v1, v2 interface{}) error { c.nconfl++; return nil }
 			st.Count("mode_conflict_callback")
 		} else {
